@@ -122,6 +122,9 @@ def make_points(ds):
         if kd == "gauss":
             qs = np.quantile(ds["X"][:, j], [0.05, 0.35, 0.65, 0.95])
             p = sorted(set(float(np.round(q * 8) / 8) for q in qs))
+            # one far-out point (about 14 standard deviations): rows of very different evidence likelihood in one batch
+            col = ds["X"][:, j]
+            p.append(float(np.round((col.max() + 14.0 * (col.std() + 0.25)) * 8) / 8))
             pts[j] = p
     return pts
 
